@@ -226,6 +226,14 @@ class TraceTty(world.VTty):
         self.nwrites += 1
         return super().write(fd, data)
 
+    def tcdrain(self, fd):
+        n0 = len(self.pending)
+        try:
+            return super().tcdrain(fd)
+        finally:
+            if len(self.pending) < n0 and self.trace:
+                self.trace[-1] = (n0 - len(self.pending), "eager")   # queued before the application's next call
+
     def tcsetattr(self, fd, when, attrs):
         try:
             return super().tcsetattr(fd, when, attrs)
